@@ -42,6 +42,11 @@ import (
 
 const InfiniteRetriesErrRecovery = -1
 
+// errUserStopDuringRecovery is returned by StartWithBackoff when the user
+// force-stopped the pipeline while it was parked in the recovery backoff. It is
+// never surfaced: the cleanup goroutine maps it to StatusUserStopped.
+var errUserStopDuringRecovery = cerrors.New("pipeline stopped by user during recovery backoff")
+
 type FailureEvent struct {
 	// ID is the ID of the pipeline which failed.
 	ID    string
@@ -135,6 +140,10 @@ type runnablePipeline struct {
 	t                *tomb.Tomb
 	backoff          *backoff.Backoff
 	recoveryAttempts *atomic.Int64
+	// intentionalStop is set by a user force stop. If the run already died with
+	// a transient error the Kill in stopForceful is a no-op, and this marker is
+	// what keeps StartWithBackoff from restarting the pipeline.
+	intentionalStop atomic.Bool
 }
 
 // ConnectorService can fetch and create a connector instance, and report when
@@ -292,6 +301,12 @@ func (s *Service) StartWithBackoff(ctx context.Context, rp *runnablePipeline) er
 		return nil
 	}
 
+	// The user force-stopped this pipeline while we were waiting (Stop admits a
+	// Recovering pipeline): do not restart it, finalize a user stop instead.
+	if rp.intentionalStop.Load() {
+		return errUserStopDuringRecovery
+	}
+
 	return s.Start(ctx, rp.pipeline.ID)
 }
 
@@ -363,6 +378,7 @@ func (s *Service) stopForceful(ctx context.Context, rp *runnablePipeline) error 
 		Msg("force stopping pipeline")
 
 	// Creates a FatalError to prevent the pipeline from recovering.
+	rp.intentionalStop.Store(true)
 	rp.t.Kill(cerrors.FatalError(pipeline.ErrForceStop))
 	for _, n := range rp.n {
 		if node, ok := n.(stream.ForceStoppableNode); ok {
@@ -984,7 +1000,14 @@ func (s *Service) runPipeline(ctx context.Context, rp *runnablePipeline) error {
 				}
 			} else {
 				// try to recover the pipeline
-				if recoveryErr := s.recoverPipeline(ctx, rp); recoveryErr != nil {
+				if recoveryErr := s.recoverPipeline(ctx, rp); cerrors.Is(recoveryErr, errUserStopDuringRecovery) {
+					// stopped by the user during the backoff: finalize as a
+					// user stop and run the cleanup below
+					err = nil
+					if updateErr := s.pipelines.UpdateStatus(ctx, rp.pipeline.ID, pipeline.StatusUserStopped, ""); updateErr != nil {
+						return updateErr
+					}
+				} else if recoveryErr != nil {
 					s.logger.
 						Err(ctx, err).
 						Str(log.PipelineIDField, rp.pipeline.ID).
